@@ -5,6 +5,15 @@ from vlib import core, runner
 from .base import StdCheck
 
 
+def _cpu_now():
+    """The shrinking budgets are CPU seconds of this process and of the harness/driver runs it waited for, not wall seconds: on an
+    overloaded machine a wall-clock budget ends the minimisation early, and an unminimised witness of a RECORDED shape does not match its
+    (deliberately narrow) classifier - a false alarm that has nothing to do with the tree under test."""
+    import os
+    t = os.times()
+    return t[0] + t[1] + t[2] + t[3]
+
+
 def _ops(lines):
     return [l.split(" | ")[0].split() for l in lines if l.strip()]
 
@@ -184,7 +193,35 @@ def connect_window_witness(clause, lines):
     return found
 
 
-CLASSIFIERS = {"c12_equal_timestamps": equal_stamp_witness, "c12_replay_setpos_file_name": replay_setpos_witness,
+def append_behind_torn_frame_witness(clause, lines):
+    """F-C12g: the clause persisted_after_crash_replayed itself is narrow (it only judges events appended to `current` behind a frame that a
+    crash / truncation tore, and is switched off by any other damage); the witness must show exactly that and nothing else: a crash (or a
+    truncation of `current` without foreign bytes) that lost bytes, a later event that WAS logged, a final undamaged replay that lacks it -
+    no probe, no foreign bytes anywhere, no damage to a rotated file."""
+    if clause != "persisted_after_crash_replayed":
+        return False
+    ops = _ops(lines)
+    # permanent damage other than a truncation of `current` switches the clause off (Spec.lean `tornStep`); it must not be in a witness.
+    # Probes restore the file, listings and dumps only read: they leave no trace.
+    if any(o[0] == "setbytes" and not (len(o) >= 4 and o[1] == "cur" and o[3] == "-") for o in ops):
+        return False
+    cuts = [i for i, o in enumerate(ops) if (o[0] == "crash" and int(o[1]) >= 0) or o[0] == "setbytes"]
+    if not cuts or ops[-1][0] != "replay":
+        return False
+    out = lines[-1].partition(" | ")[2].split()
+    if len(out) < 2:
+        return False
+    got = set(out[1].split(","))
+    logged_after = []
+    for l in lines[cuts[0] + 1:-1]:
+        pre, _, post = l.partition(" | ")
+        w, o = pre.split(), post.split()
+        if w and w[0] == "relay" and o and o[0] != "-":
+            logged_after.append(f"M{w[2]}@{w[1]}")
+    return any(m not in got for m in logged_after)
+
+
+CLASSIFIERS = {"c12_append_behind_torn_frame": append_behind_torn_frame_witness, "c12_equal_timestamps": equal_stamp_witness, "c12_replay_setpos_file_name": replay_setpos_witness,
                "c12_damaged_timestamp_ahead": damaged_timestamp_ahead_witness, "c12_damaged_wrong_type": damaged_wrong_type_witness,
                "c12_connect_window": connect_window_witness}
 
@@ -214,7 +251,9 @@ class C12(StdCheck):
                          "damage_tolerant", "survives_restart", "relay_persists", "rel_init", "step_meets_spec", "model_positions_justified",
                          "model_trace_meets_spec_partial", "timer_confirmation_sound", "confirmation_counterexample",
                          "premature_confirmation_counterexample", "other_files_replayed_partial", "other_files_replayed_counterexample",
-                         "live_only_when_in_sync", "model_no_live_before_sync_partial", "no_live_before_sync_counterexample"]
+                         "live_only_when_in_sync", "model_no_live_before_sync_partial", "no_live_before_sync_counterexample",
+                         "crash_restart_exact", "reachable_rel", "crash_anywhere_after_any_history",
+                         "persisted_after_crash_partial", "persisted_after_crash_counterexample"]
     technique = ("Lean 4 proof about an executable transcription of PersistMessage/RotateLogFile/ReplayLog/the clean-up timer and "
                  "the receiver's filter (fold invariants over the records, the pass structure of ReplayLog, C20's netstring "
                  "prefix theorem for damaged files); correspondence by differential execution of a real in-process ApiListener "
@@ -225,23 +264,31 @@ class C12(StdCheck):
                   "receiver drops exactly the messages older than its position; positions are monotone; the clean-up never "
                   "deletes a file a related endpoint inside its log_duration still needs; a file cut at any byte offset yields "
                   "exactly the records wholly inside the cut, and with ANY bytes behind the intact part those records still come first; a "
-                  "restart without byte loss changes nothing; and the whole-trace theorem: for every operation sequence (events, "
-                  "connects, replays, rotations, clean-ups, acknowledgements, incoming messages, crash-restarts) under a strictly "
-                  "advancing clock the model node's observed trace satisfies the executable specification; for ANY content of a damaged file the wanted records of the "
+                  "restart without byte loss changes nothing, and a crash that keeps only the first k bytes of `current`, for ANY k, followed by a new process "
+                  "makes ReplayLog send exactly the wanted records of all rotated files and of the frames wholly inside the k bytes (crash_restart_exact), "
+                  "also after EVERY operation history of the model node (crash_anywhere_after_any_history); and the whole-trace theorem: for every operation sequence (events, "
+                  "connects, replays, rotations, clean-ups, acknowledgements, incoming messages, crash-restarts, graceful stop-and-start restarts, runtime removal of a "
+                  "security object) under a strictly "
+                  "advancing clock the model node's observed trace satisfies the executable specification, including the clause that every new process comes up "
+                  "with the endpoint positions of the old one; records appended after a crash that cut between two frames are read back (persisted_after_crash_partial); for ANY content of a damaged file the wanted records of the "
                   "files behind it are sent as long as the garbage carries no timestamp above theirs; an event is queued live only for connected, "
                   "non-syncing endpoints, and for every operation sequence in which SyncClient is under way as soon as a connection exists nothing is "
                   "queued live in front of that connection's replay and every SyncClient run ends with `syncing` clear. The model is tied to "
                   "the code by running the real ApiListener (RelayMessage, SyncClient -> ReplayLog for EVERY replay, RotateLogFile, the timer through the pump, "
                   "MessageHandler) on seeded operation sequences with restarts as new processes, files compared as decoded record sequences, and "
-                  "every cut offset of multi-file logs; the specification predicate is evaluated on the implementation's trace")
+                  "every cut offset of multi-file logs; the endpoint positions and log_message_timestamp reach the next process through the REAL state file "
+                  "(ConfigObject::DumpObjects when a process ends, ConfigObject::RestoreObjects before the next one activates - nothing is installed by hand); "
+                  "the specification predicate is evaluated on the implementation's trace")
     level_note = ("Trusted: Lean kernel (+ propext, Classical.choice, Quot.sound), harness/driver, C20's netstring model. The JSON text of a "
                   "record is an oracle input (the bytes PersistMessage wrote are handed to the model, which checks the framing and "
                   "decodes by table); whether the peer's zone may see an object is read from the implementation (CanAccessObject is C13) "
                   "and cross-checked against the topology in the spec. The exactness theorem needs strictly increasing timestamps: "
-                  "with equal stamps the code loses events (F-C12a, known finding, kernel-checked counterexample). The whole-trace theorem covers every clause except confirmation_not_beyond_received, which the code violates inside ReplayLog (F-C12c, known finding: kernel-checked counterexamples for the clause and for the loss between two nodes; the timer's confirmations are proved sound); the check also runs the two-node schedule on two real node processes, shuttling the queued messages itself. Three further known findings on the unchanged tree, each with a kernel-checked counterexample or a statement of what the model omits: F-C12d (a still well-framed record with a too large timestamp in one file suppresses intact records of other files; `other_files_replayed_counterexample`), F-C12e (a record whose timestamp is no number / whose secobj is no dictionary throws outside ReplayLog's try block, SyncClient swallows it, later files are never replayed; the model's decoder has no such third outcome, the finding is carried by the implementation trace alone), F-C12f (an event relayed between Endpoint::AddClient and the start of the queued SyncClient is sent live in front of the replay; `no_live_before_sync_counterexample`). Security objects of two TYPES share their names (Zone and ApiUser called master/sat/agent/zx/g, living in different zones), so that visibility decided by name alone is a spec failure (replay_complete / replay_visible). A crash of the real code in any operation is reported by the harness as an observation (`<op> | DIED <signal>`) and fails the clause no_crash with the operation sequence as replay.")
+                  "with equal stamps the code loses events (F-C12a, known finding, kernel-checked counterexample). The whole-trace theorem covers every clause except confirmation_not_beyond_received, which the code violates inside ReplayLog (F-C12c, known finding: kernel-checked counterexamples for the clause and for the loss between two nodes; the timer's confirmations are proved sound); the check also runs the two-node schedule on two real node processes, shuttling the queued messages itself. Three further known findings on the unchanged tree, each with a kernel-checked counterexample or a statement of what the model omits: F-C12d (a still well-framed record with a too large timestamp in one file suppresses intact records of other files; `other_files_replayed_counterexample`), F-C12e (a record whose timestamp is no number / whose secobj is no dictionary throws outside ReplayLog's try block, SyncClient swallows it, later files are never replayed; the model's decoder has no such third outcome, the finding is carried by the implementation trace alone), F-C12f (an event relayed between Endpoint::AddClient and the start of the queued SyncClient is sent live in front of the replay; `no_live_before_sync_counterexample`). Security objects of two TYPES share their names (Zone and ApiUser called master/sat/agent/zx/g, living in different zones), so that visibility decided by name alone is a spec failure (replay_complete / replay_visible). F-C12g (found in round 4): after a crash that tore the last frame of `current`, ApiListener::Start reopens the file for appending and every event the new process persists lands behind the torn frame, where ReplayLog's reader never gets - clause persisted_after_crash_replayed, judged on its own over exactly those events and switched off by any other damage, `persisted_after_crash_counterexample`; the whole-trace theorem's crash-restarts lose no byte, byte-losing crashes are covered by crash_anywhere_after_any_history (one replay after the crash) and on the implementation's traces. A crash of the real code in any operation is reported by the harness as an observation (`<op> | DIED <signal>`) and fails the clause no_crash with the operation sequence as replay.")
     trusted_base = [
         "modelled, not verified: JSON encoding of a record (oracle bytes + table decode), Zone::CanAccessObject (oracle bits), "
         "Boost.Asio strands delivering posted sends in order, the file system (rename/unlink/append as the model says)",
+        "state file: DumpObjects/RestoreObjects themselves are C14's subject; here they are only the vehicle (the model keeps the positions across a restart, "
+        "the spec clause restart_keeps_positions demands it of the implementation)",
         "not modelled: events relayed while the endpoint is connected but still syncing (Q-C12b, outside the statement), origin-based "
         "skipping in RelayMessageOne (events are locally generated; the position advance of skipped endpoints IS modelled, incl. two-endpoint "
         "child and parent zones whose std::set iteration order is an oracle input), "
@@ -266,19 +313,19 @@ class C12(StdCheck):
 
     # --- shrinking under a budget: the check must end within minutes on a badly broken tree as well ---------------
     max_shrunk = 3            # witnesses per spec clause, and model/implementation disagreements, that are shrunk
-    shrink_wall = 25.0        # seconds per witness
+    shrink_wall = 25.0        # CPU seconds per witness (see _cpu_now)
     shrink_calls = 150        # harness invocations per witness
-    shrink_total = 170.0      # seconds for all witnesses of one run together
+    shrink_total = 170.0      # CPU seconds for all witnesses of one run together
 
     def shrink(self, harness, driver, case, prefix, sub=""):
         """ddmin through the harness's ops mode, bounded by wall time and by the number of harness invocations; the best
         reduction found so far is returned when a bound is hit."""
-        t0 = time.time()
+        t0 = _cpu_now()
         deadline = min(t0 + self.shrink_wall, getattr(self, "_deadline", t0 + self.shrink_wall))
         calls = [0]
 
         def fails(ls):
-            if calls[0] >= self.shrink_calls or time.time() > deadline:
+            if calls[0] >= self.shrink_calls or _cpu_now() > deadline:
                 return False
             calls[0] += 1
             return self._fails(harness, driver, ls, prefix, sub)
@@ -295,7 +342,7 @@ class C12(StdCheck):
         """At most `max_shrunk` witnesses per clause and `max_shrunk` disagreements, the shortest failing cases first, each
         cut after the line the driver complained about; everything else is only counted."""
         if not hasattr(self, "_deadline"):
-            self._deadline = time.time() + self.shrink_total
+            self._deadline = _cpu_now() + self.shrink_total
         bad = [l for l in lines if l.startswith("BADLINE")]
         if bad:
             res.corr_failures.append(runner.Finding("corr", "protocol", bad[:5]))
@@ -337,7 +384,7 @@ class C12(StdCheck):
                 cl0 = key[1].split(" ")[0]
                 try:
                     if recorded_shape or any(fn(cl0, [x for x in cands[0][1] if x.strip()]) for fn in
-                                             (damaged_timestamp_ahead_witness, damaged_wrong_type_witness, connect_window_witness)):
+                                             (damaged_timestamp_ahead_witness, damaged_wrong_type_witness, connect_window_witness, append_behind_torn_frame_witness)):
                         cands = cands[:1]
                 except (ValueError, IndexError, KeyError):
                     pass
@@ -347,7 +394,7 @@ class C12(StdCheck):
                     dmg = key[1].partition(" dmg=")[2]
                     try:
                         as_is = any(fn(clause, [x for x in case if x.strip()]) for fn in
-                                    (damaged_timestamp_ahead_witness, damaged_wrong_type_witness, connect_window_witness))
+                                    (damaged_timestamp_ahead_witness, damaged_wrong_type_witness, connect_window_witness, append_behind_torn_frame_witness))
                     except (ValueError, IndexError, KeyError):
                         as_is = False
                     # a case that already has a recorded shape is its own witness (it was observed in this very run)
@@ -363,7 +410,7 @@ class C12(StdCheck):
                     res.corr_failures.append(runner.Finding("corr", key[1], shown, {"driver": l}))
 
     def correspondence(self, tier, seed, harness, driver):
-        self._deadline = time.time() + self.shrink_total
+        self._deadline = _cpu_now() + self.shrink_total
         res = super().correspondence(tier, seed, harness, driver)
         # the generic flow reports the FIRST finding of a clause: a witness of the recorded shape (F-C12a) must never
         # stand in front of a different failure of the same clause
@@ -378,7 +425,8 @@ class C12(StdCheck):
         try:
             return bool(equal_stamp_witness(clause, lines) or replay_setpos_witness(clause, lines, kind or "replay_file_name")
                         or two_node_witness(clause, lines, kind) or damaged_timestamp_ahead_witness(clause, lines)
-                        or damaged_wrong_type_witness(clause, lines) or connect_window_witness(clause, lines))
+                        or damaged_wrong_type_witness(clause, lines) or connect_window_witness(clause, lines)
+                        or append_behind_torn_frame_witness(clause, lines))
         except (ValueError, IndexError, KeyError):
             return False
 
@@ -449,7 +497,8 @@ class C12(StdCheck):
         kind = finding.classifier_data.get("kind", "")
         lines = [l for l in finding.case_lines if l.strip()]
         try:
-            if fn in (equal_stamp_witness, damaged_timestamp_ahead_witness, damaged_wrong_type_witness, connect_window_witness):
+            if fn in (equal_stamp_witness, damaged_timestamp_ahead_witness, damaged_wrong_type_witness, connect_window_witness,
+                      append_behind_torn_frame_witness):
                 return bool(fn(clause, lines))
             # F-C12c: the in-replay confirmation itself, or its consequence between two nodes
             return bool(replay_setpos_witness(clause, lines, kind or "replay_file_name") or two_node_witness(clause, lines, kind))
